@@ -87,6 +87,20 @@ Definition row_computed (n it : Z) (idx : Z -> Z) (wh : Z -> R) (r : Z -> R) (ou
   forall y, (0 <= y < n)%Z ->
     psum_opt (map (fun j => r (ysrc n (idx j) y) * wh j) (Jof n it idx y)) (out y).
 
+(** the plain C++ loop (left to right from 0, round-to-nearest at every step; or every step fused)
+    is a [row_computed] *)
+Definition row_loop (fused : bool) (n it : Z) (idx : Z -> Z) (wh r : Z -> R) (y : Z) : R :=
+  (if fused then acc_fma else acc_rn) (map (fun j => (r (ysrc n (idx j) y), wh j)) (Jof n it idx y)) 0.
+
+Lemma row_loop_computed fused n it idx wh r : row_computed n it idx wh r (row_loop fused n it idx wh r).
+Proof.
+  intros y Hy. unfold row_loop.
+  replace (map (fun j => r (ysrc n (idx j) y) * wh j) (Jof n it idx y))
+    with (map (fun ab => fst ab * snd ab) (map (fun j => (r (ysrc n (idx j) y), wh j)) (Jof n it idx y)))
+    by (rewrite map_map; reflexivity).
+  destruct fused; [apply loop_fma_psum | apply loop_rn_psum].
+Qed.
+
 Lemma filter_len_le {A} (P : A -> bool) l : (length (filter P l) <= length l)%nat.
 Proof. induction l as [|x l IH]; cbn [filter length]; [lia|]. destruct (P x); cbn [length]; lia. Qed.
 
